@@ -103,6 +103,7 @@ class Interp:
         self.local_models = {}       # workspace callee key -> model (assume-guarantee summaries supplied by a rule)
         self.purefun = {}            # canonical result variable of a pure integer function -> its argument variables
         self.snapshots = {}
+        self.byte_defs = False       # numbers read from identified contents are defined over their bytes (header rules)
         self.reached = set()         # (body key, block) executed in some context
         self.path_sensitive = False  # decision-table runs: branches outside loops are recorded on the path
         self.def_models = {}         # trait method def path -> summary used for calls on trait objects of unknown type
@@ -698,6 +699,29 @@ class Interp:
         unsigned = rng is not None and rng[0] == 0
         cb = st.sys.const_value(eb)
         ca = st.sys.const_value(ea)
+        if self.byte_defs and unsigned and cb is not None and ca is None:
+            # exact quotient / remainder when the dividend is visibly D*A + B with 0 <= B < D (numbers assembled from bytes)
+            D = None
+            if base in ("Div", "Rem") and cb > 0:
+                D = int(cb)
+            elif base == "Shr":
+                D = 1 << int(cb)
+            elif base == "BitAnd":
+                m_ = int(cb)
+                if m_ > 0 and (m_ & (m_ + 1)) == 0:
+                    D = m_ + 1                                   # low mask: remainder
+                else:
+                    inv = rng[1] ^ m_
+                    if inv > 0 and (inv & (inv + 1)) == 0:
+                        D = inv + 1                              # high mask: D * quotient
+            sp = self.split_div(st, ea, D) if D else None
+            if sp is not None:
+                A, B = sp
+                if base in ("Div", "Shr"):
+                    return Num(A)
+                if base == "Rem" or (base == "BitAnd" and (int(cb) & (int(cb) + 1)) == 0):
+                    return Num(B)
+                return Num(A.scale(D))
         if base == "Rem" and cb is not None and cb > 0 and unsigned:
             if ca is not None:
                 return Num(Lin.const(int(ca) % int(cb)))
@@ -762,6 +786,7 @@ class Interp:
             r = self.fresh_num(st, 0, rng[1] >> int(cb), "shr")
             st.sys.add_le(r.e, ea)
             st.sys.add_le(r.e.scale(1 << int(cb)), ea)
+            st.sys.add_le(ea, r.e.scale(1 << int(cb)) + ((1 << int(cb)) - 1))      # x < 2^k * (x >> k + 1)
             return r
         if base == "Shl" and cb is not None and unsigned:
             ideal = ea.scale(1 << int(cb))
@@ -771,6 +796,19 @@ class Interp:
         if base in ("BitOr", "BitXor") and unsigned:
             if ca is not None and cb is not None:
                 return Num(Lin.const(int(ca) | int(cb) if base == "BitOr" else int(ca) ^ int(cb)))
+            if ca == 0:
+                return Num(eb)
+            if cb == 0:
+                return Num(ea)
+            if self.byte_defs:
+                # disjoint bits: (multiple of 2^k) | (value below 2^k) is their sum
+                for x, y in ((ea, eb), (eb, ea)):
+                    for kbits in (8, 16, 32, 64, 96):
+                        if st.sys.entails_ge(Lin.const((1 << kbits) - 1) - y) and st.sys.entails_ge(y):
+                            sp = self.split_div(st, x, 1 << kbits)
+                            if sp is not None and st.sys.entails_eq(sp[1]) and self.fits(st, x + y, tres):
+                                return Num(x + y)
+                            break
             # result < 2^k when both operands < 2^k
             for kbits in (1, 2, 3, 4, 5, 6, 7, 8, 12, 16, 24, 32, 48, 64, 96, 128):
                 m = (1 << kbits) - 1
@@ -778,6 +816,33 @@ class Interp:
                     return self.fresh_num(st, 0, m, "or")
             return self.top_num(st, tres)
         return self.top_num(st, tres)
+
+    def split_div(self, st, e, D, _depth=0, _lin=None):
+        """e == D*A + B with 0 <= B <= D-1 entailed, read off the reduced form of e; -> (A, B) or None"""
+        r = _lin if _lin is not None else st.sys.reduce(e)
+        A, B = Lin.const(0), Lin.const(0)
+        for v, k in r.t.items():
+            if k % D == 0:
+                A = A + Lin.var(v).scale(k // D)
+            else:
+                B = B + Lin.var(v).scale(k)
+        qa, rb = divmod(int(r.c), D)
+        A, B = A + qa, B + rb
+        if not A.t and _depth == 0 and len(r.t) == 1 and r.c == 0 and list(r.t.values()) == [1]:
+            # a number that is itself the pivot-free side of a definition (x appears in `p = ... + x + ...`): solve for it
+            x = next(iter(r.t))
+            for pv, rhs in st.sys.eqs.items():
+                k = rhs.t.get(x)
+                if k in (1, -1):
+                    # p = rhs  =>  x = (p - (rhs - k*x)) / k
+                    rest = rhs - Lin.var(x).scale(k)
+                    e2 = (Lin.var(pv) - rest).scale(k)
+                    got = self.split_div(st, None, D, _depth=1, _lin=e2)
+                    if got is not None:
+                        return got
+        if st.sys.entails_ge(B) and st.sys.entails_ge(Lin.const(D - 1) - B):
+            return A, B
+        return None
 
     def top_num(self, st, t):
         r = int_range(t)
